@@ -303,10 +303,18 @@ def rule_polarity(repo: Repo, rid: str = "C01.polarity") -> RuleResult:
             def matcher(e):
                 if id(e) in nvars:
                     return "not" if isinstance(e.ops[0], ast.Eq) else "!not"
+                # `head in <declared predicates>`: the head is a predicate name, hence not the (not ...) keyword
+                if isinstance(e, ast.Compare) and len(e.ops) == 1 and isinstance(e.ops[0], (ast.In, ast.NotIn)) and is_head(e.left):
+                    try:
+                        tr_ = p.trace(e.comparators[0])
+                    except KeyError:
+                        return None
+                    if tr_ and all(x[0].startswith("param:") and "predicates" in x[0] for x in tr_):
+                        return "declared" if isinstance(e.ops[0], ast.In) else "!declared"
                 return None
 
             G = L.Guards(f, matcher)
-            r_not = G.reach({"not": True}) if nvars else set()
+            r_not = G.reach({"not": True, "declared": False}) if nvars else set()
             r_pos = G.reach({"not": False}) if nvars else set(g.nodes())
             for c in calls:
                 cn = g.node_containing(c)
@@ -332,7 +340,13 @@ def rule_polarity(repo: Repo, rid: str = "C01.polarity") -> RuleResult:
                         continue
                     if fixed and is_not and cn in r_pos:
                         continue    # an arm with a fixed polarity that is also taken when the head is not 'not' (it precedes the test): a positive arm
-                    valn = {"not": is_not}
+                    valn = {"not": is_not, "declared": False} if is_not else {"not": False}
+                    if not is_not and "declared" in G.atoms_seen:
+                        # outside (not ...) a literal sink is reached for a declared predicate
+                        valn = {"not": False, "declared": True}
+                        seen_ = G.reach(valn)
+                        if cn not in seen_:
+                            continue
                     pv = G.value(valn, ispos, seen_) if ispos is not None else True
                     ftr = p.trace(first, under=G.under(valn, seen_)) if first is not None else set()
                     inner = bool(ftr) and all(x[-1] == "item:1" or not x[0].startswith("param:") for x in ftr) and any(x[-1] == "item:1" for x in ftr)
